@@ -490,3 +490,26 @@ package diff
 //@ loop 1 invariant @C12 vs_all(func(um vs_URLMethod) bool { return vs_has(sd.urlMethods2, um) ==> vs_has(sd.urlMethods1, um) }) ==> len(sd.Diffs) == old(len(sd.Diffs))
 //@ loop 1 step vs_has(sd.urlMethods1, URLMethod) ==> len(sd.Diffs) == old(len(sd.Diffs))
 //@ loop 1 step !vs_has(sd.urlMethods1, URLMethod) ==> len(sd.Diffs) == old(len(sd.Diffs))+1 && sd.Diffs[len(sd.Diffs)-1].DifferenceLocation.URL == URLMethod.Path && sd.Diffs[len(sd.Diffs)-1].DifferenceLocation.Method == URLMethod.Method && sd.Diffs[len(sd.Diffs)-1].Code == AddedEndpoint && sd.Diffs[len(sd.Diffs)-1].DifferenceLocation.Response == 0
+
+// ---- body / response properties (C13: required property added, property removed; C12; C14) ----
+// The per-iteration clauses ("step") say what one iteration of a map range adds.
+
+//@ func propertiesFor
+//@ props C12 C13 C14
+//@ requires schema != nil
+//@ ensures result != nil && vs_fresh(result)
+//@ ensures vs_all(func(n string) bool { return vs_has(result, n) ==> result[n].Schema != nil })
+//@ loop 2 invariant props != nil && vs_fresh(props) && vs_all(func(n string) bool { return vs_has(props, n) ==> props[n].Schema != nil })
+//@ loop 3 invariant props != nil && vs_fresh(props) && vs_all(func(n string) bool { return vs_has(props, n) ==> props[n].Schema != nil })
+//@ loop 4 invariant props != nil && vs_fresh(props) && vs_all(func(n string) bool { return vs_has(props, n) ==> props[n].Schema != nil })
+//@ loop 4 invariant vs_all(func(n string) bool { return vs_has(allOfMap, n) ==> allOfMap[n].Schema != nil })
+
+//@ func CompareProperties
+//@ props C12 C13 C14
+//@ requires schema1 != nil && schema2 != nil
+//@ ensures old(schema1.Properties == nil && schema2.Properties == nil) ==> len(result) == 0
+//@ loop 1 step !vs_has(schema2Props, eachProp1Name) ==> len(propDiffs) == old(len(propDiffs))+1 && propDiffs[len(propDiffs)-1].Code == DeletedProperty
+//@ loop 1 step vs_has(schema2Props, eachProp1Name) ==> vs_called("cmp")
+//@ loop 3 step vs_has(schema1.Properties, eachProp2Name) ==> len(propDiffs) == old(len(propDiffs))
+//@ loop 3 step !vs_has(schema1.Properties, eachProp2Name) && schema2Props[eachProp2Name].Required ==> len(propDiffs) == old(len(propDiffs))+1 && propDiffs[len(propDiffs)-1].Code == AddedRequiredProperty
+//@ loop 3 step !vs_has(schema1.Properties, eachProp2Name) && !schema2Props[eachProp2Name].Required ==> len(propDiffs) == old(len(propDiffs))+1 && propDiffs[len(propDiffs)-1].Code == AddedProperty
